@@ -1,4 +1,5 @@
 #![allow(clippy::suspicious_arithmetic_impl)]
+#![cfg_attr(feature = "verif-hooks", allow(unused_mut))]
 
 pub mod algebraic;
 pub mod class;
@@ -20,3 +21,5 @@ pub mod polynomial;
 pub mod prime;
 pub mod prime_decomp;
 pub mod resultant;
+#[cfg(feature = "verif-hooks")]
+pub mod verif_hooks;
